@@ -712,6 +712,7 @@ impl Song {
         if self.play_from < 0 { return; }
         if self.debug { println!("PLAY_FROM={}", self.play_from); }
         for trk in self.tracks.iter_mut() {
+            trk.events_sort(); // "latest value before the point" means latest in time, not latest written
             trk.play_from(self.play_from);
         }
     }
